@@ -43,13 +43,11 @@ fn key_str(k: u8) -> String {
     format!("k{}", k)
 }
 fn key_code(s: &str) -> u32 {
-    match s {
-        "k0" => 0,
-        "k1" => 1,
-        "k2" => 2,
-        _ => 99,
-    }
+    s.strip_prefix('k').and_then(|x| x.parse::<u32>().ok()).unwrap_or(9999)
 }
+/// number of property keys whose single-key reads are taken into the direct oracle (`all_single`);
+/// 3 (= the keys of the canonical dump) except in the many-properties stream
+static KEYSPACE: std::sync::atomic::AtomicU32 = std::sync::atomic::AtomicU32::new(3);
 fn palette() -> Vec<PV> {
     vec![
         PV::Null,
@@ -190,6 +188,7 @@ struct DNode {
     labels: Vec<u32>,
     map: Props,
     single: Props,
+    all_single: Props, // node_property for every key below KEYSPACE (direct oracle only)
 }
 #[derive(Clone, Debug, PartialEq, Eq)]
 struct DEdge {
@@ -200,6 +199,7 @@ struct DEdge {
     mult: u32,
     map: Props,
     single: Props,
+    all_single: Props,
 }
 #[derive(Clone, Debug, PartialEq, Eq, Default)]
 struct Dump {
@@ -284,8 +284,10 @@ fn group<S: GraphSnapshot>(snap: &S, mut es: Vec<EdgeKey>) -> Vec<DEdge> {
             }
         }
         let t = snap.resolve_rel_type_name(e.rel).map(|s| name_code(&s)).unwrap_or(999);
-        let single: Props = (0..3u8).filter_map(|k| snap.edge_property(e, &key_str(k)).map(|v| (k as u32, val_code(&v)))).collect();
-        out.push(DEdge { s: e.src, rel_id: e.rel, t, d: e.dst, mult: 1, map: props_of(snap.edge_properties(e)), single });
+        let ks = KEYSPACE.load(std::sync::atomic::Ordering::Relaxed);
+        let all_single: Props = (0..ks).filter_map(|k| snap.edge_property(e, &key_str(k as u8)).map(|v| (k, val_code(&v)))).collect();
+        let single: Props = all_single.iter().copied().filter(|kv| kv.0 < 3).collect();
+        out.push(DEdge { s: e.src, rel_id: e.rel, t, d: e.dst, mult: 1, map: props_of(snap.edge_properties(e)), single, all_single });
     }
     out
 }
@@ -301,8 +303,10 @@ fn dump_snapshot<S: GraphSnapshot>(snap: &S, lookup: &dyn Fn(u64) -> u32, vec_id
             .map(|s| name_code(&s))
             .collect();
         labels.sort();
-        let single: Props = (0..3u8).filter_map(|k| snap.node_property(iid, &key_str(k)).map(|v| (k as u32, val_code(&v)))).collect();
-        d.nodes.push(DNode { iid, ext, lk: lookup(ext), labels, map: props_of(snap.node_properties(iid)), single });
+        let ks = KEYSPACE.load(std::sync::atomic::Ordering::Relaxed);
+        let all_single: Props = (0..ks).filter_map(|k| snap.node_property(iid, &key_str(k as u8)).map(|v| (k, val_code(&v)))).collect();
+        let single: Props = all_single.iter().copied().filter(|kv| kv.0 < 3).collect();
+        d.nodes.push(DNode { iid, ext, lk: lookup(ext), labels, map: props_of(snap.node_properties(iid)), single, all_single });
     }
     let mut outs = Vec::new();
     let mut ins = Vec::new();
@@ -739,7 +743,7 @@ impl Ref {
             let mut labels: Vec<u32> = x.labels.iter().filter_map(|l| name(*l)).collect();
             labels.sort();
             let pr: Props = self.np.iter().filter(|(k, _)| k.0 == i).map(|(k, v)| (k.1 as u32, *v as u32)).collect();
-            d.nodes.push(DNode { iid: i, ext: x.ext, lk: if with_lookup { i } else { NOLK }, labels, map: pr.clone(), single: pr });
+            d.nodes.push(DNode { iid: i, ext: x.ext, lk: if with_lookup { i } else { NOLK }, labels, map: pr.clone(), single: pr.iter().copied().filter(|kv| kv.0 < 3).collect(), all_single: pr });
         }
         let mut es = self.edges.clone();
         es.sort();
@@ -752,7 +756,7 @@ impl Ref {
                 }
             }
             let pr: Props = self.ep.iter().filter(|(k, _)| k.0 == e).map(|(k, v)| (k.1 as u32, *v as u32)).collect();
-            g.push(DEdge { s: e.0, rel_id: e.1, t: name(e.1).unwrap_or(999), d: e.2, mult: 1, map: pr.clone(), single: pr });
+            g.push(DEdge { s: e.0, rel_id: e.1, t: name(e.1).unwrap_or(999), d: e.2, mult: 1, map: pr.clone(), single: pr.iter().copied().filter(|kv| kv.0 < 3).collect(), all_single: pr });
         }
         d.out = g.clone();
         d.inn = g;
@@ -919,6 +923,56 @@ impl Gen {
         ops
     }
 }
+/// C05 "many properties" stream: 400..900 property values with distinct keys over 4 nodes and 2 relationships
+/// in 2..3 transactions, compaction, more values (new keys), compaction again, reopen, a small transaction,
+/// checkpoint — the sunk property store outgrows one page (root split of the property B-tree)
+fn gen_many(r: &mut Rng) -> Vec<Hop> {
+    let t = |ops: Vec<Op>| Hop::Txn { ops, commit: true, fail: None };
+    let mut h = vec![t(vec![
+        Op::CreateNode { ext: 101, labels: vec![0] },
+        Op::CreateNode { ext: 102, labels: vec![1] },
+        Op::CreateNode { ext: 103, labels: vec![] },
+        Op::CreateNode { ext: 104, labels: vec![2] },
+        Op::CreateEdge { s: 0, t: 10, d: 1 },
+        Op::CreateEdge { s: 2, t: 11, d: 2 },
+    ])];
+    // (item, key) pairs: items 0..3 = nodes, 4..5 = the two relationships; keys 0..KEYS_MANY
+    let mut pairs: Vec<(u32, u8)> = Vec::new();
+    for item in 0..6u32 {
+        for k in 0..KEYS_MANY as u8 {
+            pairs.push((item, k));
+        }
+    }
+    // shuffle
+    for i in (1..pairs.len()).rev() {
+        let j = r.below(i as u64 + 1) as usize;
+        pairs.swap(i, j);
+    }
+    let total = 400 + r.below(501) as usize;
+    let first = total * (40 + r.below(40) as usize) / 100; // before the first compaction
+    let mk = |p: &(u32, u8), r: &mut Rng| -> Op {
+        let v = r.below(14) as u8;
+        match p.0 {
+            0..=3 => Op::SetNP { n: p.0, k: p.1, v },
+            4 => Op::SetEP { s: 0, t: 10, d: 1, k: p.1, v },
+            _ => Op::SetEP { s: 2, t: 11, d: 2, k: p.1, v },
+        }
+    };
+    let ntx = 2 + r.below(2) as usize;
+    let chunk = first.div_ceil(ntx);
+    for c in pairs[..first].chunks(chunk.max(1)) {
+        h.push(t(c.iter().map(|p| mk(p, r)).collect()));
+    }
+    h.push(if r.chance(1, 2) { Hop::Compact } else { Hop::Checkpoint });
+    h.push(t(pairs[first..total].iter().map(|p| mk(p, r)).collect()));
+    h.push(Hop::Compact);
+    h.push(if r.chance(1, 2) { Hop::DropReopen } else { Hop::CloseReopen });
+    h.push(t(vec![Op::SetNP { n: 3, k: (KEYS_MANY - 1) as u8, v: 1 }, Op::CreateEdge { s: 1, t: 10, d: 3 }]));
+    h.push(Hop::Checkpoint);
+    h
+}
+const KEYS_MANY: u32 = 160;
+
 fn gen_history(r: &mut Rng, fl: &Flavor) -> Vec<Hop> {
     let mut g = Gen::default();
     let mut h = Vec::new();
@@ -1203,7 +1257,7 @@ fn diff_kinds(a: &Dump, b: &Dump) -> BTreeSet<Kind> {
             if x.labels != y.labels {
                 k.insert(Kind::Labels);
             }
-            if x.map != y.map || x.single != y.single {
+            if x.map != y.map || x.single != y.single || x.all_single != y.all_single {
                 k.insert(Kind::NProps);
             }
             if x.lk != y.lk && x.lk != NOLK && y.lk != NOLK {
@@ -1218,7 +1272,7 @@ fn diff_kinds(a: &Dump, b: &Dump) -> BTreeSet<Kind> {
         }
         for x in va {
             if let Some(y) = vb.iter().find(|y| (y.s, y.t, y.d) == (x.s, x.t, x.d)) {
-                if x.map != y.map || x.single != y.single {
+                if x.map != y.map || x.single != y.single || x.all_single != y.all_single {
                     k.insert(Kind::EProps);
                 }
             }
@@ -1377,7 +1431,12 @@ fn main() {
     let mut corr_dumps = 0usize;
     let corp = corpus(&prop);
     for idx in 0..a.n {
-        let h = if idx < corp.len() { corp[idx].clone() } else { gen_history(&mut r, &fl) };
+        let many = prop == "C05" && (idx == corp.len() || (idx > corp.len() && idx % 20 == 7));
+        KEYSPACE.store(if many { KEYS_MANY } else { 3 }, std::sync::atomic::Ordering::Relaxed);
+        let h = if idx < corp.len() { corp[idx].clone() } else if many { gen_many(&mut r) } else { gen_history(&mut r, &fl) };
+        if many {
+            *hist.entry("stream:many-properties".into()).or_insert(0) += 1;
+        }
         let use_db = idx % 2 == 0;
         let mut filt = Vec::new();
         let (hw, dumps) = run_impl(&h, use_db, &mut filt);
@@ -1414,6 +1473,7 @@ fn main() {
         let mut fail = |rep: &mut Report, cls: Option<&'static str>, what: String| {
             fails += 1;
             *hist.entry(format!("fail:{}", cls.unwrap_or("UNKNOWN"))).or_insert(0) += 1;
+            let what: String = what.chars().take(6000).collect();
             rep.fail(idx, cls, &what, input.clone());
         };
         for f in filt {
@@ -1441,7 +1501,7 @@ fn main() {
                 // compaction/checkpoint steps must give the same dumps at every transaction
                 let mut found = false;
                 for (i, x) in hw.iter().enumerate() {
-                    if is_maint_compact(x) && i > 0 {
+                    if (is_maint_compact(x) || is_reopen(x)) && i > 0 {
                         let k = diff_kinds(&dumps[i], &dumps[i - 1]);
                         if !k.is_empty() {
                             let c = classes(&hw[..=i]);
@@ -1569,6 +1629,69 @@ mod c14q {
         tx.commit().map_err(|e| e.to_string())?;
         Ok(r)
     }
+    /// WriteableGraph proxy that records the storage calls a statement makes (to evaluate the
+    /// K-C14-samerun predicate on what really happened, not on the statement text)
+    struct Rec<'a, 'b> {
+        inner: &'b mut nervusdb::WriteTxn<'a>,
+        created: Vec<(u32, u32, u32)>,
+        tombed_nodes: Vec<u32>,
+    }
+    impl<'a, 'b> WriteableGraph for Rec<'a, 'b> {
+        fn create_node(&mut self, e: u64, l: u32) -> nervusdb_query::Result<u32> {
+            WriteableGraph::create_node(self.inner, e, l)
+        }
+        fn add_node_label(&mut self, n: u32, l: u32) -> nervusdb_query::Result<()> {
+            WriteableGraph::add_node_label(self.inner, n, l)
+        }
+        fn remove_node_label(&mut self, n: u32, l: u32) -> nervusdb_query::Result<()> {
+            WriteableGraph::remove_node_label(self.inner, n, l)
+        }
+        fn create_edge(&mut self, s: u32, r: u32, d: u32) -> nervusdb_query::Result<()> {
+            self.created.push((s, r, d));
+            WriteableGraph::create_edge(self.inner, s, r, d)
+        }
+        fn set_node_property(&mut self, n: u32, k: String, v: PV) -> nervusdb_query::Result<()> {
+            WriteableGraph::set_node_property(self.inner, n, k, v)
+        }
+        fn set_edge_property(&mut self, s: u32, r: u32, d: u32, k: String, v: PV) -> nervusdb_query::Result<()> {
+            WriteableGraph::set_edge_property(self.inner, s, r, d, k, v)
+        }
+        fn remove_node_property(&mut self, n: u32, k: &str) -> nervusdb_query::Result<()> {
+            WriteableGraph::remove_node_property(self.inner, n, k)
+        }
+        fn remove_edge_property(&mut self, s: u32, r: u32, d: u32, k: &str) -> nervusdb_query::Result<()> {
+            WriteableGraph::remove_edge_property(self.inner, s, r, d, k)
+        }
+        fn tombstone_node(&mut self, n: u32) -> nervusdb_query::Result<()> {
+            self.tombed_nodes.push(n);
+            WriteableGraph::tombstone_node(self.inner, n)
+        }
+        fn tombstone_edge(&mut self, s: u32, r: u32, d: u32) -> nervusdb_query::Result<()> {
+            self.created.retain(|e| *e != (s, r, d)); // tombstone_edge drops the memtable's earlier copies
+            WriteableGraph::tombstone_edge(self.inner, s, r, d)
+        }
+        fn get_or_create_label_id(&mut self, name: &str) -> nervusdb_query::Result<u32> {
+            WriteableGraph::get_or_create_label_id(self.inner, name)
+        }
+        fn get_or_create_rel_type_id(&mut self, name: &str) -> nervusdb_query::Result<u32> {
+            WriteableGraph::get_or_create_rel_type_id(self.inner, name)
+        }
+        fn staged_created_nodes_with_labels(&self) -> Vec<(u32, Vec<String>)> {
+            WriteableGraph::staged_created_nodes_with_labels(&*self.inner)
+        }
+    }
+    fn dangling_edge(db: &Db) -> Option<((u32, u32, u32), BTreeSet<u32>)> {
+        let s = db.snapshot();
+        let nodes: BTreeSet<u32> = s.nodes().collect();
+        for i in 0..UNIVERSE {
+            for e in s.neighbors(i, None).chain(s.incoming_neighbors(i, None)) {
+                if !nodes.contains(&e.src) || !nodes.contains(&e.dst) {
+                    return Some(((e.src, e.rel, e.dst), nodes));
+                }
+            }
+        }
+        None
+    }
     fn dangling(db: &Db) -> Option<String> {
         let s = db.snapshot();
         let nodes: BTreeSet<u32> = s.nodes().collect();
@@ -1651,6 +1774,80 @@ mod c14q {
                 tx.commit().unwrap();
                 let dang = dangling(&db);
                 fail(rep, Some("K-C14-snapshot"), format!("`{}` then `{}` in one transaction: the delete succeeded; dangling: {:?}", q1, q2, dang), json!({"statements": [q1, q2]}));
+            }
+        }
+        // 4. (DETACH) DELETE of a node followed by MERGE / CREATE in the SAME statement or the same explicit
+        //    transaction, the later pattern describing or re-using the deleted node; afterwards every
+        //    relationship returned from any node in either direction must have both endpoints in nodes()
+        let setups: [(&str, &str); 2] = [
+            ("linked", "CREATE (:A {id: 1})-[:R]->(:B {id: 2})"),
+            ("apart", "CREATE (:A {id: 1}), (:B {id: 2})"),
+        ];
+        // (shape id, statements run in ONE transaction, class a failure may be attributed to — only for shapes that
+        //  already dangle on the pinned tree (a later statement of a transaction is planned on the committed snapshot and
+        //  so still sees the deleted node; CREATE may re-use a deleted variable) and only if the recorded storage calls
+        //  satisfy the K-C14-samerun predicate; None = clean on the pinned tree, any failure is a VIOLATION)
+        let shapes: Vec<(&str, Vec<&str>, Option<&'static str>)> = vec![
+            ("del-merge-out", vec!["MATCH (a:A {id: 1}) DETACH DELETE a MERGE (x:A {id: 1})-[:R]->(y:B {id: 2})"], None),
+            ("del-merge-in", vec!["MATCH (a:A {id: 1}) DETACH DELETE a MERGE (y:B {id: 2})<-[:R]-(x:A {id: 1})"], None),
+            ("del-merge-node", vec!["MATCH (a:A {id: 1}) DETACH DELETE a MERGE (x:A {id: 1})"], None),
+            ("delB-merge-out", vec!["MATCH (b:B {id: 2}) DETACH DELETE b MERGE (x:A {id: 1})-[:R]->(y:B {id: 2})"], None),
+            ("del-create-fresh", vec!["MATCH (a:A {id: 1}) DETACH DELETE a CREATE (x:A {id: 1})-[:R]->(y:B {id: 3})"], None),
+            ("del-create-to-survivor", vec!["MATCH (a:A {id: 1}), (b:B {id: 2}) DETACH DELETE a CREATE (x:A {id: 1})-[:R]->(b)"], None),
+            ("del-create-reuse-var", vec!["MATCH (a:A {id: 1}), (b:B {id: 2}) DETACH DELETE a CREATE (a)-[:R]->(b)"], Some("K-C14-samerun")),
+            ("del-with-merge", vec!["MATCH (a:A {id: 1}) DETACH DELETE a WITH 1 AS one MERGE (x:A {id: 1})-[:R]->(y:B {id: 2})"], None),
+            ("txn:del;merge-out", vec!["MATCH (a:A {id: 1}) DETACH DELETE a", "MERGE (x:A {id: 1})-[:R]->(y:B {id: 2})"], Some("K-C14-samerun")),
+            ("txn:del;merge-in", vec!["MATCH (a:A {id: 1}) DETACH DELETE a", "MERGE (y:B {id: 2})<-[:R]-(x:A {id: 1})"], Some("K-C14-samerun")),
+            ("txn:del;create-match", vec!["MATCH (a:A {id: 1}) DETACH DELETE a", "MATCH (a:A {id: 1}), (b:B {id: 2}) CREATE (a)-[:R]->(b)"], Some("K-C14-samerun")),
+            ("txn:del;create-fresh", vec!["MATCH (a:A {id: 1}) DETACH DELETE a", "CREATE (x:A {id: 1})-[:R]->(y:B {id: 3})"], None),
+        ];
+        for (sname, setup) in setups {
+            for (shape, stmts, expected) in &shapes {
+                let d = tempfile::tempdir().unwrap();
+                let db = Db::open(d.path().join("q")).unwrap();
+                exec(&db, setup).unwrap();
+                let key = format!("query:delete-then-write:{}/{}", sname, shape);
+                let mut tx = db.begin_write();
+                let mut outcome = "ok";
+                let (mut created, mut tombed_nodes) = (Vec::new(), Vec::new());
+                for q in stmts {
+                    let p = match prepare(q) {
+                        Ok(p) => p,
+                        Err(_) => {
+                            outcome = "parse-error";
+                            break;
+                        }
+                    };
+                    let snap = db.snapshot();
+                    let mut rec = Rec { inner: &mut tx, created: std::mem::take(&mut created), tombed_nodes: std::mem::take(&mut tombed_nodes) };
+                    let r = p.execute_mixed(&snap, &mut rec, &Params::new());
+                    created = rec.created;
+                    tombed_nodes = rec.tombed_nodes;
+                    if r.is_err() {
+                        outcome = "exec-error";
+                        break;
+                    }
+                }
+                *hist.entry(format!("{}={}", key, outcome)).or_insert(0) += 1;
+                if outcome != "ok" {
+                    drop(tx); // a rejected statement: the transaction is rolled back
+                    if let Some(x) = dangling(&db) {
+                        fail(rep, None, format!("{}: statement rejected and rolled back, yet dangling {}", key, x), json!({"setup": setup, "statements": stmts}));
+                    }
+                    continue;
+                }
+                tx.commit().unwrap();
+                if let Some((e, nodes)) = dangling_edge(&db) {
+                    // K-C14-samerun as in known/C14.json, evaluated on the recorded storage calls: the transaction
+                    // created e (still held by the memtable) and tombstoned exactly one of its endpoints
+                    let samerun = created.contains(&e) && tombed_nodes.iter().any(|n| (e.0 == *n) != (e.2 == *n));
+                    // a shape that is clean on the pinned tree stays strict: a failure there is never attributed
+                    let cls = match expected {
+                        Some(c) if samerun => Some(*c),
+                        _ => None,
+                    };
+                    fail(rep, cls, format!("{}: after commit a traversal returns {:?} but nodes() = {:?} (transaction created {:?}, tombstoned nodes {:?})", key, e, nodes, created, tombed_nodes), json!({"setup": setup, "statements": stmts}));
+                }
             }
         }
         for cls in failed {
